@@ -260,9 +260,13 @@ impl PendingSubscriptionSink {
 			Ok(SubscriptionSink {
 				inner: self.inner,
 				method: self.method,
-				subscribers: self.subscribers,
-				uniq_sub: self.uniq_sub,
-				unsubscribe: IsUnsubscribed(tx),
+				uniq_sub: self.uniq_sub.clone(),
+				unsubscribe: IsUnsubscribed(tx.clone()),
+				_on_last_drop: Arc::new(RemoveSubscriberOnDrop {
+					subscribers: self.subscribers,
+					uniq_sub: self.uniq_sub,
+					unsubscribe: IsUnsubscribed(tx),
+				}),
 				_permit: Arc::new(self.permit),
 			})
 		} else {
@@ -305,14 +309,33 @@ pub struct SubscriptionSink {
 	inner: MethodSink,
 	/// MethodCallback.
 	method: &'static str,
-	/// Shared Mutex of subscriptions for this method.
-	subscribers: Subscribers,
 	/// Unique subscription.
 	uniq_sub: SubscriptionKey,
 	/// A future to that fires once the unsubscribe method has been called.
 	unsubscribe: IsUnsubscribed,
+	/// Removes the subscription from the subscribers when the last clone of the sink is dropped.
+	_on_last_drop: Arc<RemoveSubscriberOnDrop>,
 	/// Subscription permit
 	_permit: Arc<SubscriptionPermit>,
+}
+
+/// Removes the subscription from the shared subscribers when dropped i.e, when the last sink is gone.
+#[derive(Debug)]
+struct RemoveSubscriberOnDrop {
+	/// Shared Mutex of subscriptions for this method.
+	subscribers: Subscribers,
+	/// Unique subscription.
+	uniq_sub: SubscriptionKey,
+	/// Whether the subscription has been unsubscribed already.
+	unsubscribe: IsUnsubscribed,
+}
+
+impl Drop for RemoveSubscriberOnDrop {
+	fn drop(&mut self) {
+		if !self.unsubscribe.is_unsubscribed() {
+			self.subscribers.lock().remove(&self.uniq_sub);
+		}
+	}
 }
 
 impl SubscriptionSink {
@@ -414,14 +437,6 @@ impl SubscriptionSink {
 
 	fn is_active_subscription(&self) -> bool {
 		!self.unsubscribe.is_unsubscribed()
-	}
-}
-
-impl Drop for SubscriptionSink {
-	fn drop(&mut self) {
-		if self.is_active_subscription() {
-			self.subscribers.lock().remove(&self.uniq_sub);
-		}
 	}
 }
 
